@@ -1,7 +1,8 @@
 (* C13 model, part 9: histories of parse calls over SEVERAL Docstring objects whose configured options live in shared
    dictionaries (the loader hands one `docstring_options` dict to every docstring of a load).
    State: a heap of option dictionaries (a dictionary's identity = its index) and the docstrings, each with its lines, its
-   parent, its configured parser, a REFERENCE to its options dictionary and the cache of `parsed`.
+   parent, its configured parser, a REFERENCE to its options dictionary and the cache of `parsed`.  The value of a
+   docstring can be assigned at any time; `lines` and every parse see the CURRENT value.
    Docstring.parse(parser, **options) = parse(self, parser or self.parser, **(options or self.parser_options)): the style
    given or else the configured one; the per-call options when there are any, else the configured dictionary; missing
    keys take the parser's defaults.  parse writes nothing.  Executable definitions only. *)
@@ -72,9 +73,11 @@ Inductive hop :=
 | HParse (doc : nat) (s : option hstyle) (o : odict)     (* docs[doc].parse(s, **o) *)
 | HReadParsed (doc : nat)                                (* docs[doc].parsed *)
 | HSetOptions (doc : nat) (d : odict)                    (* docs[doc].parser_options = {...}: a NEW dictionary *)
-| HMutate (ref : nat) (k : okey) (v : bool).             (* the user writes into a configured dictionary: d[k] = v *)
+| HMutate (ref : nat) (k : okey) (v : bool)              (* the user writes into a configured dictionary: d[k] = v *)
+| HSetValue (doc : nat) (lines : list str)               (* docs[doc].value = ... (given as its lines) *)
+| HReadLines (doc : nat).                                (* docs[doc].lines *)
 
-Inductive hobs := ObsRes (r : hres) | ObsNone | ObsBadIndex.
+Inductive hobs := ObsRes (r : hres) | ObsLines (l : list str) | ObsNone | ObsBadIndex.
 
 Definition heap_get (h : list odict) (ref : nat) : odict := nth ref h [].
 
@@ -122,6 +125,16 @@ Definition hstep (st : hstate) (x : hop) : hstate * hobs :=
       end
   | HMutate ref k v =>
       (mkHS (set_nth ref (oset k v (heap_get (hs_heap st) ref)) (hs_heap st)) (hs_docs st), ObsNone)
+  | HSetValue i ls =>
+      match nth_error (hs_docs st) i with
+      | Some d => (mkHS (hs_heap st) (set_nth i (mkHD ls (hd_parent d) (hd_parser d) (hd_ref d) (hd_parsed d)) (hs_docs st)), ObsNone)
+      | None => (st, ObsBadIndex)
+      end
+  | HReadLines i =>
+      match nth_error (hs_docs st) i with
+      | Some d => (st, ObsLines (hd_lines d))        (* the lines of the CURRENT value: nothing is remembered *)
+      | None => (st, ObsBadIndex)
+      end
   end.
 
 Fixpoint hexec (st : hstate) (ops : list hop) : hstate * list hobs :=
@@ -132,7 +145,7 @@ Fixpoint hexec (st : hstate) (ops : list hop) : hstate * list hobs :=
   end.
 
 (* ---- what a history leaves of the configuration: only the explicit writes count *)
-Definition is_write (x : hop) : bool := match x with HSetOptions _ _ | HMutate _ _ _ => true | _ => false end.
+Definition is_write (x : hop) : bool := match x with HSetOptions _ _ | HMutate _ _ _ | HSetValue _ _ => true | _ => false end.
 
 (* the heap and the references after the writes of a history (parse / parsed calls dropped) *)
 Definition writes_only (ops : list hop) : list hop := filter is_write ops.
